@@ -807,6 +807,53 @@ services:
         - {action: rebuild, path: ./one/not-there-yet}
 `
 
+// corpusExtShapes: extension payloads of every shape, at every level that takes extensions; payloads are opaque: keys
+// starting with x- inside a payload are data like any other
+const corpusExtShapes = `
+x-scalar: v
+x-number: 3
+x-list: [a, {x-in-list: 1, plain: 2}, [b]]
+x-platform:
+  tier: gold
+  x-owner: team-a
+  nested: {x-deep: {x-deeper: true}, other: {k: v}}
+services:
+  app:
+    image: app
+    x-svc: {x-inner: i, list: [{x-l: 1}]}
+    build:
+      context: .
+      x-build: {x-b: 1}
+    deploy:
+      x-deploy: {x-d: [1, 2]}
+      resources:
+        x-res: {x-r: r}
+    healthcheck:
+      test: ["CMD", "true"]
+      x-hc: {x-h: h}
+    networks:
+      front:
+        x-attach: {x-a: a}
+    volumes:
+      - {type: volume, source: data, target: /d, x-mount: {x-m: m}}
+networks:
+  front:
+    x-net: {x-n: n}
+    ipam:
+      x-ipam: {x-i: i}
+volumes:
+  data:
+    x-vol: {x-v: [v]}
+secrets:
+  s1:
+    file: ./s
+    x-sec: {x-s: s}
+configs:
+  c1:
+    content: c
+    x-cfg: {x-c: c}
+`
+
 // corpusExtendsTree: three leaves sharing an intermediate service that extends a root, every level adding to the same sequences
 const corpusExtendsTree = `
 services:
@@ -1005,6 +1052,7 @@ func CorpusScns() map[string]*Scn {
 			"r2/real2/src/", "", "l2", SymlinkTo+"r2", "deep", SymlinkTo+"l2/real2",
 			"plain/src/", "", "e.env", "E=1\n", "envlink.env", SymlinkTo+"e.env"), Main: []string{"compose.yaml"}},
 		"wide":         {Files: files("compose.yaml", corpusWide(), "s", "sec"), Main: []string{"compose.yaml"}},
+		"ext-shapes":   {Files: files("compose.yaml", corpusExtShapes, "s", "sec"), Main: []string{"compose.yaml"}},
 		"extends-tree": {Files: files("compose.yaml", corpusExtendsTree), Main: []string{"compose.yaml"}},
 		"empties":      {Files: files("compose.yaml", corpusEmpties), Main: []string{"compose.yaml"}},
 		"legacy":       {Files: files("compose.yaml", corpusLegacy), Main: []string{"compose.yaml"}},
